@@ -1,8 +1,10 @@
 /-
-C10 CODE MODEL: `DBusObjectHandler.handleMethodCallMessage` (txdbus/objects.py:742-898) with
+C10 CODE MODEL: `DBusObjectHandler.handleMethodCallMessage` (txdbus/objects.py) with
 `DBusObject.executeMethod`, the decorated-method cache (`_iterIFaceCaches`, `_cacheInterfaces`,
-`_searchCache`, `_getDecoratedMethod`), `_set_method_flags`, the nested `send_reply` /
-`send_error`, and the reply constructors of txdbus/message.py, as the code is written (after
+`_searchCache`, `_getDecoratedMethod`), the rule of `_set_method_flags` (`needsCaller`: the
+parameter list of the method ends in `dbusCaller`; keyword and minimum length from the source),
+the nested `send_reply` / `send_error`, `exportObject` / `unexportObject` as operations of a
+history, and the reply constructors of txdbus/message.py, as the code is written (after
 repairs C10-01: `send_error` escapes NUL in the text it sends, and C10-02: a failure while
 building the GetManagedObjects reply is answered with an error).
 
@@ -15,14 +17,22 @@ What is a parameter (`Env`), not modelled here:
   * `ofSeq vs`         - a Python list / tuple taken as ONE value (`[return_values]`);
   * `validErr name`    - `marshal.validateErrorName(name)` returns (C18's validator);
   * `textFix text`     - what `send_error` makes of the text before `ErrorMessage(...)`:
-                         `none` when the constructor raises.  The repaired code is `fixRepaired`
-                         (always `some`), the code before repair C10-01 is `fixPrefix`.
+                         `none` when the constructor raises.  `fixSource` is read off the
+                         generated table (the escape statement of the source under test),
+                         `fixRepaired` is the repaired code, `fixPrefix` the code before C10-01.
+Every OTHER message is assumed to marshal (Ping / Introspect replies, the four `_send_err`
+texts - the C10-02 text is `str(e)` without escaping): an assumption validated by the streams.
+
+All constants (built-in pairs, reply signatures, error names and texts, prefixes, the name of
+the exception raised when nothing is bound, the caller keyword, the escape) come from
+`Gen/Dispatch.lean`, translated from the source on every run.
 
 A history is a list of operations; operation number `k` (its position) is the identity of the
 call it delivers and of the Deferred that call's method may return:
-  * `call c behav`   - the parsed method call `c` arrives; `behav impl` is what the user function
-                       `impl` does when (if) it is invoked;
-  * `resolve k r`    - the Deferred returned by call `k` fires with a value or a failure.
+  * `call c behav`     - the parsed method call `c` arrives; `behav impl` is what the user function
+                         `impl` does when (if) it is invoked;
+  * `resolve k r`      - the Deferred returned by call `k` fires with a value or a failure;
+  * `exportObj p o` / `unexportObj p` - the application exports / unexports between calls.
 Every event is tagged with the number of the call it belongs to.
 
 Python corner semantics kept explicit: truthiness of `msg.interface` (`None` and `''` are
